@@ -700,8 +700,9 @@ def gen_drive_scenario(R, kinds=("settimer", "settimer", "cancel", "send")):
 
 def check_C07(chk, R, S):
     chk.rule = ("1-4 nodes x 3 timer names; set/cancel from init, timer, packet and telemetry callbacks, re-entrant "
-                "same-name cancel/set inside the firing handler, ties, past timers; the abstract timer table is replayed "
-                "along the implementation's trace")
+                "same-name cancel/set inside the firing handler, ties, past timers, timer storms, requests for one instant made at "
+                "different decimal times, sets/cancels issued from OUTSIDE callbacks (before the first step, between steps); the "
+                "abstract timer table is replayed along the implementation's trace")
     run_corpus(chk, [M.mon_C07])
     run_sim_class(chk, "sim-timer-rearm", [gen_rearm(R) for _ in range(S["sims"])], [M.mon_C07])
     prof = {"p_timer": 1.0, "p_mob": 0.3, "p_assert": 0.0, "acts": ["settimer", "settimer", "cancel", "send", "bcast", "flag"],
@@ -839,7 +840,8 @@ def gen_same_instant_scenario(R):
 def check_C09(chk, R, S):
     chk.rule = ("3-D placements incl. exact boundary distances (scaled Pythagorean quadruples, +-2^-20 off), per-node ranges "
                 "changed at arbitrary times, delays, nodes moving while messages are in flight; expected receivers "
-                "recomputed from the positions known at send time")
+                "recomputed from the positions known at send time; co-located nodes and range exactly 0; two sends at the very instant "
+                "of a mobility update (before / after it) while the pair crosses the range boundary")
     run_corpus(chk, [M.mon_C09])
     scs = [gen_range_scenario(R) for _ in range(S["sims"])]
     run_sim_class(chk, "sim-range", scs, [M.mon_C09])
@@ -1056,7 +1058,8 @@ def gen_pair_C13_coincide(R):
 def check_C13(chk, R, S):
     chk.rule = ("paired runs: a scenario with and without a sequence of node-scoped requests (set/cancel timer, goto, "
                 "speed, range) by a silent existing node or by one additional node; the other nodes' callbacks, times, "
-                "payloads, positions and request outcomes must be identical in both runs, and both must equal the model")
+                "payloads, positions and request outcomes must be identical in both runs, and both must equal the model; a quarter of "
+                "the pairs make the silent node's requests coincide (same timer names, same due instants) with the others' own")
     run_corpus(chk, [])
     pairs = [gen_pair_C13(R) for _ in range(S["sims"] * 3)] + [gen_pair_C13_coincide(R) for _ in range(S["sims"])]
     ra = corr.corr_sims([p[0] for p in pairs])
